@@ -69,7 +69,7 @@ CHECKS = {
         note='joint theorems closed under the global context; ' + AX_R + 'for the combination theorems. Models are hand-written: tied by running '
              'the real MultipleEventsForwardTask with integer-coded stubs for the per-event task and the pair likelihood (combine=True, '
              'return_zero=True) and by bit-exact execution of combine_mu. The per-station estimate and its zero-noise limit (true ratio) '
-             'are judged on the implementation only; zero-filtering branches and joint tasks with location_sample_size > 1 are not exercised.',
+             'are judged on the implementation only; zero-filtering branches are not exercised; joint tasks with several location samples are exercised by one fixed probe (known finding).',
         design='6 C15'),
     'C18': dict(
         technique='Coq proof (list induction, lia) about a hand-written executable model of the scatangle block parser, writer and greedy binning; vm_compute correspondence against the real functions on generated files',
